@@ -224,4 +224,5 @@ PROPS["C17"] = dict(
     trusted_base=DATA_TB, assumptions=DATA_ASM,
     explanation=("Theorems for ALL payload terms on the generated constants: the 9 combinator equations, Y/T/Z fixed-point "
                  "convertibilities, Omega loops; fst/snd/swap/curry/uncurry; 12 option laws; 16 result laws; 7 truth "
-                 "tables, not, if_else. Not yet theorems: pi!/tuple! for all n, From conversions (oracle only)."))
+                 "tables, not, if_else; pi!(i, n) on tuple! for ALL arities n, positions i and payloads (modelled macros); the From "
+                 "conversions of closed payloads are the (normal, when the payloads are) reducts of the constructor applications."))
